@@ -51,8 +51,9 @@ func genC20Pure(t *simrt.Tape) c20Pure {
 	// a subset of the pattern kinds in a random order (0 kind-int, 1 sum type, 2 equal, 3 regex, 4 kind-string,
 	// 5 a regex rule that does not compile: it accepts nothing, every time it is consulted)
 	// 6 kind-slice (accepts every slice, a nil one included: its kind is Slice)
-	pool := []int{0, 1, 2, 3, 4, 5, 6}
-	k := 1 + t.Choose(7)
+	// 7 equal to one particular pointer (pointers are comparable: only that very pointer is equal to it)
+	pool := []int{0, 1, 2, 3, 4, 5, 6, 7}
+	k := 1 + t.Choose(8)
 	for i := 0; i < k; i++ {
 		j := t.Choose(len(pool))
 		p.Patterns = append(p.Patterns, pool[j])
@@ -337,26 +338,28 @@ func (sc *c20Scenario) runPure(s *simrt.Sim, h *Hist) {
 		name string
 		v    interface{}
 		// which pattern kinds accept it (0 kind-int, 1 sum type, 2 equal(42), 3 regex ^ab+$, 4 kind-string); -1 = not asserted
-		acc [7]int
+		acc [8]int
 	}
 	st := c20T{A: 1}
+	st2 := st
 	var nilPtr *c20T
 	probes := []probe{
-		{"int 42", 42, [7]int{1, 0, 1, 0, 0}},
-		{"int 7", 7, [7]int{1, 0, 0, 0, 0}},
-		{"int64 42", int64(42), [7]int{0, 0, 0, 0, 0}},
-		{"string abb", "abb", [7]int{0, 0, 0, 1, 1}},
-		{"string xab", "xab", [7]int{0, 0, 0, 0, 1}},
-		{"string 42", "42", [7]int{0, 0, 0, 0, 1}},
-		{"nil", nil, [7]int{0, 1, 0, 0, 0}},
-		{"typed nil pointer", nilPtr, [7]int{0, -1, 0, 0, 0}},
-		{"typed nil *CompData (what NewCompData returns for mismatching arguments)", fpgo.NewCompData(fpgo.DefProduct(reflect.Int), "no"), [7]int{0, -1, 0, 0, 0}},
-		{"struct", st, [7]int{0, 0, 0, 0, 0}},
-		{"pointer to struct", &st, [7]int{0, 0, 0, 0, 0}},
-		{"slice", []int{1, 2}, [7]int{0, 0, 0, 0, 0, 0, 1}},
-		{"nil slice", []int(nil), [7]int{0, 0, 0, 0, 0, 0, 1}},
-		{"CompData(string,int)", fpgo.NewCompData(sum, "a", 1), [7]int{0, 1, 0, 0, 0}},
-		{"CompData(int) of another type", fpgo.NewCompData(fpgo.DefProduct(reflect.Int), 5), [7]int{0, 0, 0, 0, 0}},
+		{"int 42", 42, [8]int{1, 0, 1, 0, 0}},
+		{"int 7", 7, [8]int{1, 0, 0, 0, 0}},
+		{"int64 42", int64(42), [8]int{0, 0, 0, 0, 0}},
+		{"string abb", "abb", [8]int{0, 0, 0, 1, 1}},
+		{"string xab", "xab", [8]int{0, 0, 0, 0, 1}},
+		{"string 42", "42", [8]int{0, 0, 0, 0, 1}},
+		{"nil", nil, [8]int{0, 1, 0, 0, 0}},
+		{"typed nil pointer", nilPtr, [8]int{0, -1, 0, 0, 0}},
+		{"typed nil *CompData (what NewCompData returns for mismatching arguments)", fpgo.NewCompData(fpgo.DefProduct(reflect.Int), "no"), [8]int{0, -1, 0, 0, 0}},
+		{"struct", st, [8]int{0, 0, 0, 0, 0}},
+		{"pointer to struct", &st, [8]int{0, 0, 0, 0, 0, 0, 0, 1}},
+		{"another pointer to an equal struct", &st2, [8]int{0, 0, 0, 0, 0}},
+		{"slice", []int{1, 2}, [8]int{0, 0, 0, 0, 0, 0, 1}},
+		{"nil slice", []int(nil), [8]int{0, 0, 0, 0, 0, 0, 1}},
+		{"CompData(string,int)", fpgo.NewCompData(sum, "a", 1), [8]int{0, 1, 0, 0, 0}},
+		{"CompData(int) of another type", fpgo.NewCompData(fpgo.DefProduct(reflect.Int), 5), [8]int{0, 0, 0, 0, 0}},
 	}
 	h.Do("main", "pattern-matching", p.Patterns, func() (interface{}, error) {
 		// ONE PatternMatching object per pattern list is reused for every probe (as a long-lived matcher would be);
@@ -399,6 +402,8 @@ func (sc *c20Scenario) runPure(s *simrt.Sim, h *Hist) {
 					return fpgo.InCaseOfRegex("a(b", eff)
 				case 6:
 					return fpgo.InCaseOfKind(reflect.Slice, eff)
+				case 7:
+					return fpgo.InCaseOfEqual(&st, eff)
 				}
 				return fpgo.Otherwise(eff)
 			}
@@ -441,7 +446,7 @@ func (sc *c20Scenario) runPure(s *simrt.Sim, h *Hist) {
 						got = fpgo.Either(pr.v, pats...)
 					}
 				}()
-				ctx := fmt.Sprintf("%s of %s against pattern kinds %v (0 kind-int, 1 sum type, 2 equal 42, 3 regex ^ab+$, 4 kind-string) otherwise=%v", via, pr.name, p.Patterns, p.Otherwise)
+				ctx := fmt.Sprintf("%s of %s against pattern kinds %v (0 kind-int, 1 sum type, 2 equal 42, 3 regex ^ab+$, 4 kind-string, 5 broken regex, 6 kind-slice, 7 equal to one pointer) otherwise=%v", via, pr.name, p.Patterns, p.Otherwise)
 				if want >= 0 && p.EffPanic {
 					if pan != "effect-boom" || applied != 1 {
 						bad("pattern-matching", "panic-of-the-matching-effect-not-propagated", fmt.Sprintf("%s, the effect of the first accepting pattern (kind %d) panics: MatchFor returned %v / panicked with %v after applying %d effects; want that panic to reach the caller and no other effect applied", ctx, want, got, pan, applied))
